@@ -12,10 +12,10 @@ from vlib import Broken, log
 
 
 def _gen_one(args):
-    drv, a, out = args
-    p = vlib.run([drv, "snap-trace"] + a + ["-out", out], timeout=3600)
+    drv, cmd, a, out = args
+    p = vlib.run([drv, cmd] + a + ["-out", out], timeout=3600)
     if p.returncode != 0:
-        raise Broken("snap-trace failed: %s\n%s" % (" ".join(a), p.stderr[-3000:]))
+        raise Broken("%s failed: %s\n%s" % (cmd, " ".join(a), p.stderr[-3000:]))
     return out
 
 
@@ -27,11 +27,21 @@ def generate(drv, d, plans, procs=8):
         shards = max(1, min(procs, pl["n"] // 50))
         per = (pl["n"] + shards - 1) // shards
         for s in range(shards):
-            a = ["-seed", str(pl["seed"] * 1000 + pi * 100 + s), "-n", str(per), "-W", str(pl.get("W", 6)),
-                 "-nmax", str(pl.get("nmax", 12)), "-gens", pl["gens"], "-variants", pl["variants"],
-                 "-bias", str(pl.get("bias", 0.5)), "-g0", str(g0)]
+            if pl.get("real"):
+                a = ["-seed", str(pl["seed"] * 1000 + pi * 100 + s), "-n", str(per), "-gens", pl["gens"], "-variants", pl["variants"],
+                     "-g0", str(g0), "-where", pl.get("where", "interior,origin,nl"), "-maxz", str(pl.get("maxz", 20))]
+                if pl.get("sets"):
+                    a += ["-sets", pl["sets"]]
+                if pl.get("deep"):
+                    a += ["-deep"]
+                cmd = "real-trace"
+            else:
+                a = ["-seed", str(pl["seed"] * 1000 + pi * 100 + s), "-n", str(per), "-W", str(pl.get("W", 6)),
+                     "-nmax", str(pl.get("nmax", 12)), "-gens", pl["gens"], "-variants", pl["variants"],
+                     "-bias", str(pl.get("bias", 0.5)), "-g0", str(g0)]
+                cmd = "snap-trace"
             a += pl.get("extra", [])
-            jobs.append((drv, a, os.path.join(d, "t_%d_%d.ndjson" % (pi, s))))
+            jobs.append((drv, cmd, a, os.path.join(d, "t_%d_%d.ndjson" % (pi, s))))
             g0 += per
     lines = []
     with concurrent.futures.ThreadPoolExecutor(max_workers=procs) as ex:
@@ -76,16 +86,17 @@ def group_of(lines, idx):
     return lo, hi
 
 
-def reproduce(drv, cfg, group_lines, extra_data=None):
+def reproduce(drv, cfg, group_lines, extra_data=None, module="SnapTrace"):
     """Re-run a group of recorded calls through the current code and validate the fresh records.
     Returns (violated_invariant or None, fresh_lines)."""
-    p = vlib.run([drv, "snap-replay"], input="\n".join(group_lines) + "\n", timeout=600)
+    cmd = "real-replay" if module == "RealTrace" else "snap-replay"
+    p = vlib.run([drv, cmd], input="\n".join(group_lines) + "\n", timeout=600)
     if p.returncode != 0:
-        raise Broken("snap-replay failed: " + p.stderr[-2000:])
-    fresh = [x for x in p.stdout.splitlines() if x.strip()]
+        raise Broken("%s failed: %s" % (cmd, p.stderr[-2000:]))
+    fresh = [x for x in p.stdout.splitlines() if x.startswith("{")]
     d = dict(extra_data or {})
     d["snap_trace.ndjson"] = "\n".join(fresh) + "\n"
-    r = vlib.run_tlc("SnapTrace", cfg, data=d, workers=2, timeout=900, want_vecs=False)
+    r = vlib.run_tlc(module, cfg, data=d, workers=2, timeout=900, want_vecs=False)
     if r.ok:
         return None, fresh
     if r.violated:
@@ -93,7 +104,7 @@ def reproduce(drv, cfg, group_lines, extra_data=None):
     raise Broken("replay validation: %s\n%s" % (r.error, r.out[-2000:]))
 
 
-def validate(prop, cfg, lines, v, drv, classify=None, max_fail=6, timeout=7200):
+def validate(prop, cfg, lines, v, drv, classify=None, max_fail=6, timeout=7200, module="SnapTrace", max_known=40):
     """Run TLC over the whole trace; on a failing record: reproduce its group, classify, report, remove the group, continue.
     Returns dict with states, transitions, stats."""
     lines = list(lines)
@@ -101,9 +112,10 @@ def validate(prop, cfg, lines, v, drv, classify=None, max_fail=6, timeout=7200):
     total_trans = 0
     stats = None
     fails = 0
+    knowns = 0
     import re
     while lines:
-        r = vlib.run_tlc("SnapTrace", cfg, data={"snap_trace.ndjson": "\n".join(lines) + "\n"}, timeout=timeout, heap="6g")
+        r = vlib.run_tlc(module, cfg, data={"snap_trace.ndjson": "\n".join(lines) + "\n"}, timeout=timeout, heap="6g")
         total_states += r.distinct
         total_trans += r.generated
         if stats is None or r.ok:
@@ -118,7 +130,7 @@ def validate(prop, cfg, lines, v, drv, classify=None, max_fail=6, timeout=7200):
         idx = int(m[-1]) - 1
         lo, hi = group_of(lines, idx)
         grp = lines[lo:hi + 1]
-        inv, fresh = reproduce(drv, cfg, grp)
+        inv, fresh = reproduce(drv, cfg, grp, module=module)
         rec = json.loads(lines[idx])
         if inv is None:
             raise Broken("%s failed on a recorded call but the same call re-executed satisfies it (flaky observation?): %s"
@@ -129,6 +141,22 @@ def validate(prop, cfg, lines, v, drv, classify=None, max_fail=6, timeout=7200):
         fid = classify(inv, rec, grp) if classify else None
         if fid:
             v.known_finding(fid[0], fid[1])
+            knowns += 1
+            if fid[0] in ("F9", "F10", "F8"):
+                # these findings are keyed by a condition on the record itself: drop every other record with the same
+                # key at once instead of re-running TLC per record (each is still matched against the key)
+                keep = []
+                for ln in lines:
+                    rr = json.loads(ln)
+                    f2 = classify(inv, rr, [ln]) if rr.get("out", "ok") != "ok" or fid[0] == "F8" else None
+                    if f2 and f2[0] == fid[0] and ln not in grp:
+                        v.known_finding(f2[0], f2[1])
+                    else:
+                        keep.append(ln)
+                lines = [x for x in keep if x not in grp]
+                continue
+            if knowns >= max_known:
+                raise Broken("more than %d known-finding occurrences in one run: the bounds of this check need refitting" % max_known)
         else:
             v.violation(what, {"kind": "snap-group", "cfg": cfg, "invariant": inv, "records": [json.loads(x) for x in grp]}, name="snap")
             fails += 1
@@ -157,7 +185,7 @@ def summarize(stats_vecs):
 
 
 def run_snap_property(prop, tier, cfg, plans, rule, classify=None, second_process=False, min_valid_frac=0.0,
-                      extra_cov=None, assumptions=None, extra_lines=None, post=None):
+                      extra_cov=None, assumptions=None, extra_lines=None, post=None, real_plans=None, real_cfg=None):
     t0 = time.time()
     v = vlib.Verdict(prop)
     drv = vlib.build_harness()
@@ -173,6 +201,15 @@ def run_snap_property(prop, tier, cfg, plans, rule, classify=None, second_proces
     if not lines:
         raise Broken("no records generated")
     res = validate(prop, cfg, lines, v, drv, classify=classify)
+    rres = None
+    rlines = []
+    if real_plans:
+        d = vlib.scratch(prop.lower() + "real")
+        try:
+            rlines = generate(drv, d, real_plans)
+        finally:
+            vlib.rm(d)
+        rres = validate(prop, real_cfg, rlines, v, drv, classify=classify, module="RealTrace")
     st = summarize(res["stats"])
     if st["records"] and st["valid"] < min_valid_frac * st["records"]:
         raise Broken("generator degenerate: only %d of %d records are valid polygons" % (st["valid"], st["records"]))
@@ -184,6 +221,20 @@ def run_snap_property(prop, tier, cfg, plans, rule, classify=None, second_proces
         "inputs": groups, "records": len(lines), "record_stats": st, "rule": rule,
         "plans": plans,
     }
+    if rres is not None:
+        cov["real_grid_records"] = len(rlines)
+        cov["real_grid_states"] = rres["states"]
+        cov["real_grid_plans"] = real_plans
+        cov["states"] += rres["states"]
+        cov["transitions"] += rres["transitions"]
+        cov["traces_validated_against_impl"] += len(rlines)
+        sets = {}
+        for ln in rlines:
+            nm = json.loads(ln)["set"]
+            sets[nm] = sets.get(nm, 0) + 1
+        cov["real_grid_sets"] = sets
+        if rlines:
+            cov["samples"].append(json.loads(rlines[0]))
     if extra_cov:
         cov.update(extra_cov)
     if post:
@@ -200,7 +251,8 @@ def replay_snap(path):
     o = json.load(open(path))
     drv = vlib.build_harness()
     grp = [json.dumps(r) for r in o["records"]]
-    inv, fresh = reproduce(drv, o["cfg"], grp)
+    module = "RealTrace" if o["cfg"].startswith("RealTrace") else "SnapTrace"
+    inv, fresh = reproduce(drv, o["cfg"], grp, module=module)
     for x in fresh:
         print(x[:2000])
     if inv:
@@ -208,3 +260,17 @@ def replay_snap(path):
         return 1
     print("not reproduced: the re-executed calls satisfy %s" % o["cfg"])
     return 0
+
+
+# ---------------- known findings keyed by a condition on the failing record ----------------
+def classify_known(prop):
+    known = {f["id"]: f for f in vlib.known_for(prop)}
+
+    def classify(inv, rec, grp):
+        out = rec.get("out", "ok")
+        if "F9" in known and out.startswith("panic: cannot make Z out of") and rec.get("levels") and max(rec["levels"]) > 32:
+            return ("F9", known["F9"]["what"])
+        if "F10" in known and out.startswith("panic: trying to insert a coord") and rec.get("far_band"):
+            return ("F10", known["F10"]["what"])
+        return None
+    return classify
